@@ -12,7 +12,7 @@ git -C /repo worktree add -q --detach $WT HEAD || exit 2
 trap 'git -C /repo worktree remove --force $WT 2>/dev/null; rm -rf $WT' EXIT
 case $MUT in
   revert:*) git -C $WT revert --no-commit ${MUT#revert:} >/dev/null 2>&1 || { echo "MUT $NAME: revert failed"; exit 2; } ;;
-  patch:*)  git -C $WT apply ${MUT#patch:} || { echo "MUT $NAME: patch failed"; exit 2; } ;;
+  patch:*)  git -C $WT apply ${MUT#patch:} 2>/dev/null || git -C $WT apply --3way ${MUT#patch:} || { echo "MUT $NAME: patch failed"; exit 2; } ;;
   sed:*)    f=$(echo "$MUT" | cut -d: -f2); e=$(echo "$MUT" | cut -d: -f3-); sed -i "$e" $WT/$f; git -C $WT diff --quiet && { echo "MUT $NAME: sed changed nothing"; exit 2; } ;;
 esac
 export GOFLAGS=-mod=mod GOPROXY=off GOSUMDB=off GOTOOLCHAIN=local
